@@ -332,6 +332,55 @@ example : Src.Object.OSMObject.typed ⟨⟨⟨⟨⟩, 40, 1, 0, 0, 0⟩⟩, -17,
 example : Src.Object.op_lt_OSMObject_OSMObject_defined ⟨⟨⟨⟨⟩, 40, 1, 0, 0, 0⟩⟩, -17, false, 3, ⟨1000⟩, 0, 0⟩
     ⟨⟨⟨⟨⟩, 40, 1, 0, 0, 0⟩⟩, 5, false, 1, ⟨0⟩, 0, 0⟩ = true := by decide
 
+/-! #### `handler::CheckOrder` — translated as a state transformer (members read AND written, `throw`) -/
+
+/-- `CheckOrder::node(const Node&)`: for EVERY object state and node, the translated method returns
+    normally with the state `checkStep` computes, or throws exactly when `checkStep` is `none` -/
+theorem src_tie_checkorder_node (s : Src.CheckOrder.CheckOrder) (n : Src.Node.Node) :
+    checkResult (Src.CheckOrder.CheckOrder.node s n) = checkStep (checkOfSrc s) .node n.toBase_OSMObject.m_id ∧
+    ThrowsOutOfOrder (Src.CheckOrder.CheckOrder.node s n) s := by
+  rcases s with ⟨b, mn, mw, mr, hn, hw, hr⟩
+  cases hn <;> cases hw <;> cases hr <;> by_cases e : mn = n.toBase_OSMObject.m_id <;>
+    (try have e' : ¬ n.toBase_OSMObject.m_id = mn := fun h => e h.symm) <;>
+    cases h : idOrder n.toBase_OSMObject.m_id mn <;>
+    simp [Src.CheckOrder.CheckOrder.node, checkStep, checkResult, checkOfSrc, ThrowsOutOfOrder, Src.Object.OSMObject.id,
+      src_tie_id_order, *]
+
+/-- `CheckOrder::way(const Way&)` -/
+theorem src_tie_checkorder_way (s : Src.CheckOrder.CheckOrder) (w : Src.Way.Way) :
+    checkResult (Src.CheckOrder.CheckOrder.way s w) = checkStep (checkOfSrc s) .way w.toBase_OSMObject.m_id ∧
+    ThrowsOutOfOrder (Src.CheckOrder.CheckOrder.way s w) s := by
+  rcases s with ⟨b, mn, mw, mr, hn, hw, hr⟩
+  cases hn <;> cases hw <;> cases hr <;> by_cases e : mw = w.toBase_OSMObject.m_id <;>
+    (try have e' : ¬ w.toBase_OSMObject.m_id = mw := fun h => e h.symm) <;>
+    cases h : idOrder w.toBase_OSMObject.m_id mw <;>
+    simp [Src.CheckOrder.CheckOrder.way, checkStep, checkResult, checkOfSrc, ThrowsOutOfOrder, Src.Object.OSMObject.id,
+      src_tie_id_order, *]
+
+/-- `CheckOrder::relation(const Relation&)` -/
+theorem src_tie_checkorder_relation (s : Src.CheckOrder.CheckOrder) (r : Src.Relation.Relation) :
+    checkResult (Src.CheckOrder.CheckOrder.relation s r) = checkStep (checkOfSrc s) .relation r.toBase_OSMObject.m_id ∧
+    ThrowsOutOfOrder (Src.CheckOrder.CheckOrder.relation s r) s := by
+  rcases s with ⟨b, mn, mw, mr, hn, hw, hr⟩
+  cases hn <;> cases hw <;> cases hr <;> by_cases e : mr = r.toBase_OSMObject.m_id <;>
+    (try have e' : ¬ r.toBase_OSMObject.m_id = mr := fun h => e h.symm) <;>
+    cases h : idOrder r.toBase_OSMObject.m_id mr <;>
+    simp [Src.CheckOrder.CheckOrder.relation, checkStep, checkResult, checkOfSrc, ThrowsOutOfOrder, Src.Object.OSMObject.id,
+      src_tie_id_order, *]
+
+/-- one step of the order checker, whatever the kind of the object: translated source = `checkStep` -/
+theorem src_tie_checkorder_step (s : Src.CheckOrder.CheckOrder) (n : Src.Node.Node) (w : Src.Way.Way) (r : Src.Relation.Relation) :
+    checkResult (Src.CheckOrder.CheckOrder.node s n) = checkStep (checkOfSrc s) .node n.toBase_OSMObject.m_id ∧
+    checkResult (Src.CheckOrder.CheckOrder.way s w) = checkStep (checkOfSrc s) .way w.toBase_OSMObject.m_id ∧
+    checkResult (Src.CheckOrder.CheckOrder.relation s r) = checkStep (checkOfSrc s) .relation r.toBase_OSMObject.m_id :=
+  ⟨(src_tie_checkorder_node s n).1, (src_tie_checkorder_way s w).1, (src_tie_checkorder_relation s r).1⟩
+
+/-- the three getters read the model's maxima -/
+theorem src_tie_checkorder_getters (s : Src.CheckOrder.CheckOrder) :
+    Src.CheckOrder.CheckOrder.max_node_id s = (checkOfSrc s).maxNode ∧
+    Src.CheckOrder.CheckOrder.max_way_id s = (checkOfSrc s).maxWay ∧
+    Src.CheckOrder.CheckOrder.max_relation_id s = (checkOfSrc s).maxRel := ⟨rfl, rfl, rfl⟩
+
 end SrcTies
 
 end Osmium.Order.C16
